@@ -149,6 +149,11 @@ def elasticity_cases(pt: dict, rnd: random.Random, scaled: bool = False) -> tupl
             for routine, syms, tab in (("variable_elasticities", vars_, pt["evs" if normalized else "evu"]),
                                        ("parameter_elasticities", pars, pt["eps" if normalized else "epu"])):
                 scans = [None, [syms[rnd.randrange(len(syms))]]]
+                if pt.get("pinit") and routine == "parameter_elasticities":
+                    # (to_scan=None raises KeyError on a model with a rule-defined parameter: get_parameter_names lists
+                    # it, get_parameter_values does not -- loud, outside the claim); the full scan in the order that
+                    # displaces the rule's source AFTER the others
+                    scans = [list(syms), [syms[rnd.randrange(len(syms))]]]
                 for to_scan in scans:
                     scn = {"kind": "elasticity", "routine": routine, "net": pt["net"], "env": pt["env"],
                            "normalized": normalized, "with_variables": with_vars, "to_scan": to_scan, "parallel": False,
@@ -232,6 +237,8 @@ def response_cases(pt: dict, rnd: random.Random, parallel_too: bool) -> tuple[li
     state = {v: fl(pt["env"][v]) for v in vars_}
     for with_vars, normalized, h in [(w, n, hh) for w in (False, True) for n in (True, False) for hh in (H, HQ)]:
         to_scan = None if rnd.random() < 0.7 else [pars[rnd.randrange(len(pars))]]
+        if pt.get("pinit") and to_scan is None:
+            to_scan = list(pars)                  # explicit, rule's source last (see elasticity_cases)
         cols = pars if to_scan is None else to_scan
         results = {}
         for parallel in ([False, True] if parallel_too else [False]):
@@ -367,7 +374,7 @@ def points(ctx: Ctx, rep: Report) -> list[dict]:
     pts = [norm_point(p) for p in res.payloads]
     if len(pts) < 200:
         raise MachineryError(f"only {len(pts)} points emitted")
-    if {p["net"] for p in pts} != {"chain2", "branch", "rev", "sgn", "cycle", "ia", "iac", "pl"}:
+    if {p["net"] for p in pts} != {"chain2", "branch", "rev", "sgn", "cycle", "ia", "iac", "ipar", "pl"}:
         raise MachineryError("a network of the family is missing from the emission")
     return pts
 
@@ -427,7 +434,7 @@ def run(ctx: Ctx) -> int:
     pts = points(ctx, rep)
     binding_selftest(pts, rep)
     rnd = random.Random(ctx.seed)
-    cap = 336 if ctx.quick else 2400
+    cap = 368 if ctx.quick else 2400
     pick = pts if len(pts) <= cap else rnd.sample(pts, cap)
     results = pmap(_seq_point, [(p, ctx.seed) for p in pick], procs=WORKERS, chunk=4)
     worst_el = worst_rc = 0.0
